@@ -867,7 +867,7 @@ def c20(chk, tier, extra=None):
         if b"vfFresh" in alltext or b"vffresh" in alltext:
             continue
         tb = top_blocks(fx) if len(fx.files) == 1 else None
-        fresh = (FRESH if thorough else rnd.sample(FRESH, 2)) + _mirror_blocks(fx, rnd, 4 if thorough else 2)
+        fresh = (FRESH if thorough else rnd.sample(FRESH, 2)) + _mirror_blocks(fx, rnd, 5 if thorough else 3)
         for j, (kind, lines, keys) in enumerate(fresh):
             blk = fx.nl.join(x.encode() for x in lines) + fx.nl
             where = "end"
